@@ -19,6 +19,7 @@ func c17(c *Ctx) {
 		"(pairing) DeriveKeyset visits every deriver in a complete loop, adds the key derived by an element with WithFixedID(that element's key ID), with the caller's salt, and calls SetPrimary(that ID) exactly under keyID == primaryKeyID; the factory side (key ID / primary from the same enabled entry) is decided under C05; the legacy wrapper keeps the entry's prefix type and uses ID requirement 0 exactly for RAW; " +
 		"(deterministic) nothing in the derivation packages draws randomness: no reference to crypto/rand, the random wrappers or NewBytesFromRand, and every stdlib key generator there is fed the PRF stream reader parameter; every AddKeyWithOpts call passes WithFixedID, so the manager's random key IDs are unreachable; " +
 		"(percall) registered key-deriver closures capture no mutable state (decided under C18: closures' captured memory is in their write sets)."
+	c17PrefixMatch(c)
 	var f *ssa.Function
 	for _, m := range methodsOf(p, "keyderivation", "wrappedKeysetDeriver") {
 		if m.Name() == "DeriveKeyset" {
